@@ -34,7 +34,7 @@ func init() {
 			{ID: "C20-R1", Title: "start-up ordering; load/save key agreement; key pair created only when absent", Decides: "device id, key pair and pairings survive restarts", Floor: 7, Run: func(c *core.Ctx) { c20r1(c); passThrough(c, "C20"); keyPairRouting(c); returnsUndecorated(c, "C20") }},
 			{ID: "C20-R2", Title: "configuration number bump rule", Decides: "c# increases exactly when the structure changed", Floor: 3, Run: c20r2},
 			{ID: "C20-R3", Title: "values do not count in the content hash", Decides: "never because characteristic values changed", Floor: 4, Run: func(c *core.Ctx) { c20r3(c); valuePathsStoreOnlyValue(c) }},
-			{ID: "C20-R4", Title: "discoverable derives from the stored pairings; events wired", Decides: "discoverable exactly when no controller pairing is stored", Floor: 9, Run: func(c *core.Ctx) { c20r4(c); listenersAreKept(c) }},
+			{ID: "C20-R4", Title: "discoverable derives from the stored pairings; events wired", Decides: "discoverable exactly when no controller pairing is stored", Floor: 9, Run: func(c *core.Ctx) { c20r4(c); listenersAreKept(c); nameProfileErrorHandled(c) }},
 			{ID: "C20-R5", Title: "setup code validation", Decides: "accepted exactly when eight digits and not a trivial code", Floor: 5, Run: func(c *core.Ctx) { c20r5(c); pinFormatted(c) }},
 			{ID: "C20-R6", Title: "setup payload layout", Decides: "the setup URI decodes back to code, category and flags", Floor: 4, Run: c20r6},
 		},
@@ -718,10 +718,10 @@ func c20r5(c *core.Ctx) {
 			return ok && bt.Kind() == types.Uint8
 		}
 		if k, isK := core.ConstInt(b.Y); isK && isByte(b.X) {
-			if b.Op == token.LSS && k == '0' {
+			if (b.Op == token.LSS || b.Op == token.GEQ) && k == '0' {
 				lo = true
 			}
-			if b.Op == token.GTR && k == '9' {
+			if (b.Op == token.GTR || b.Op == token.LEQ) && k == '9' {
 				hi = true
 			}
 		}
@@ -758,11 +758,28 @@ func c20r5(c *core.Ctx) {
 	want := []string{"00000000", "11111111", "22222222", "33333333", "44444444", "55555555", "66666666", "77777777", "88888888", "99999999", "12345678", "87654321"}
 	sort.Strings(want)
 	var got []string
+	// the table is the package-level list of strings ValidatePin walks (whatever it is called)
+	tableName := "invalidPins"
+	core.Instrs(f, func(i ssa.Instruction) {
+		u, ok := i.(*ssa.UnOp)
+		if !ok || u.Op != token.MUL {
+			return
+		}
+		g, ok := u.X.(*ssa.Global)
+		if !ok || g.Pkg != f.Pkg {
+			return
+		}
+		if sl, isSl := u.Type().Underlying().(*types.Slice); isSl {
+			if b, isB := sl.Elem().Underlying().(*types.Basic); isB && b.Kind() == types.String {
+				tableName = g.Name()
+			}
+		}
+	})
 	if pk := p.Pkg(""); pk != nil {
 		for _, file := range pk.Syntax {
 			ast.Inspect(file, func(n ast.Node) bool {
 				vs, ok := n.(*ast.ValueSpec)
-				if !ok || len(vs.Names) != 1 || vs.Names[0].Name != "invalidPins" || len(vs.Values) != 1 {
+				if !ok || len(vs.Names) != 1 || vs.Names[0].Name != tableName || len(vs.Values) != 1 {
 					return true
 				}
 				if cl, ok := vs.Values[0].(*ast.CompositeLit); ok {
@@ -858,7 +875,23 @@ func c20r6(c *core.Ctx) {
 	wantS := "[4 8 4 27]"
 	wantF := "[const&0x7 const&0xf categoryId flags&0xf code&0x7ffffff]"
 	c.Check(fmt.Sprint(shifts) == wantS, "payload-shifts@"+fname(f), f.Pos(), "shift sequence 4, 8, 4, 27", fmt.Sprintf("shift sequence is %v, the setup payload is version:3|reserved:4|category:8|flags:4|code:27 (%s)", shifts, wantS))
-	c.Check(fmt.Sprint(fields) == wantF, "payload-fields@"+fname(f), f.Pos(), "fields version, reserved, category, flags, code with their masks", fmt.Sprintf("fields are %v, want %s", fields, wantF))
+	// a constant field that is written without its mask ( const version = 0 ): the mask changes nothing when the constant fits it
+	norm := append([]string(nil), fields...)
+	// both leading constants zero: only one of them is left in the shifted sum ( payload = 0 << …; the other term folded away )
+	if len(norm) == 4 && norm[0] == "const=0" {
+		norm = append([]string{"const=0"}, norm...)
+	}
+	for k, fd := range norm {
+		if k < 2 && strings.HasPrefix(fd, "const=") {
+			var v int64
+			fmt.Sscanf(strings.TrimPrefix(fd, "const="), "%d", &v)
+			mask := []int64{0x7, 0xf}[k]
+			if v >= 0 && v <= mask {
+				norm[k] = []string{"const&0x7", "const&0xf"}[k]
+			}
+		}
+	}
+	c.Check(fmt.Sprint(norm) == wantF, "payload-fields@"+fname(f), f.Pos(), "fields version, reserved, category, flags, code with their masks", fmt.Sprintf("fields are %v, want %s", fields, wantF))
 	// nine base-36 digits, prefix, setup id appended
 	nine, div36, prefix := false, false, false
 	core.Instrs(f, func(i ssa.Instruction) {
